@@ -172,6 +172,54 @@ def sibling_operations(rep, d) -> None:
             rep.violate(f"C08/sibling-operations/{key}/failing-operation-undiagnosed", f"the failing operation ({why}) is not named in any diagnostic: {g1['diags'][:2]}")
 
 
+def isolation_pairs(rep, d) -> None:
+    """Hand-written (faulty, repaired) document pairs around things SHARED between a removed model and survivors: component enums,
+    equal inline enums, parameters.  Every file of the repaired tree that does not concern an affected schema must be in the faulty tree,
+    byte-identical, and the faulty package must import."""
+    from .. import treegen
+    S = {"type": "string"}
+    R = lambda n: {"$ref": f"#/components/schemas/{n}"}
+    ok = lambda sch: {"200": {"description": "d", "content": {"application/json": {"schema": sch}}}}
+    bad, good = {"type": "array"}, {"type": "array", "items": S}
+    enum = {"type": "string", "enum": ["eur", "usd"]}
+
+    def shared_component_enum(b):
+        return gen.mkdoc({"X": {"type": "object", "properties": {"b": b}}, "D": {"type": "object", "properties": {"x": R("X"), "cur": R("Currency"), "l": {"type": "array", "items": R("Currency")}}},
+                          "Currency": enum, "Keeper": {"type": "object", "properties": {"cur": R("Currency")}}},
+                         {"/k": {"get": {"operationId": "k", "parameters": [{"name": "cur", "in": "query", "schema": R("Currency")}], "responses": ok(R("Keeper"))}}})
+
+    def equal_inline_enum(b):
+        return gen.mkdoc({"Pet": {"type": "object", "properties": {"status": dict(enum), "b": b}}, "PetStatus": dict(enum), "Order": {"type": "object", "properties": {"s": R("PetStatus")}}},
+                         {"/o": {"get": {"operationId": "o", "parameters": [{"name": "s", "in": "query", "schema": R("PetStatus")}], "responses": ok(R("Order"))}}})
+
+    def chain_with_survivor_siblings(b):
+        return gen.mkdoc({"X": {"type": "object", "properties": {"b": b}}, "Mid": {"allOf": [R("X"), {"type": "object", "properties": {"m": R("Leaf")}}]}, "Leaf": {"type": "object", "properties": {"v": S, "e": dict(enum)}},
+                          "Other": {"type": "object", "properties": {"leaf": R("Leaf"), "leaves": {"type": "object", "additionalProperties": R("Leaf")}}}},
+                         {"/x": {"get": {"operationId": "x", "responses": ok(R("Other"))}}})
+    fams = {"shared-component-enum": (shared_component_enum, {"X", "D"}), "equal-inline-enum": (equal_inline_enum, {"Pet"}), "chain-with-siblings": (chain_with_survivor_siblings, {"X", "Mid"})}
+    jobs = []
+    for name, (mk, aff) in fams.items():
+        jobs += [(mk(bad), str(d / f"iso-{name}-faulty"), {}), (mk(good), str(d / f"iso-{name}-repaired"), {})]
+    res = treegen.generate_many(jobs)
+    from openapi_python_client import utils
+    for i, (name, (mk, aff)) in enumerate(fams.items()):
+        g1 = res[2 * i]
+        rep.count(1, ("isolation-pair", name))
+        if g1["exc"] or g1["rejected"]:
+            rep.violate(f"C08/isolation/{name}/everything-lost", f"{name}: {(g1['exc'] or str(g1['diags'][:1]))[-200:]}")
+            continue
+        s1, s2 = gen.snapshot(d / f"iso-{name}-faulty"), gen.snapshot(d / f"iso-{name}-repaired")
+        affmods = {str(utils.PythonIdentifier(utils.ClassName(a, ""), "")) for a in aff}
+        unrelated = [k for k in s2 if k.endswith(".py") and not k.endswith("__init__.py") and not any(k.endswith(f"/{m}.py") or k.startswith(f"models/{m}_") for m in affmods)]
+        lost = sorted(k for k in unrelated if k not in s1)
+        changed = sorted(k for k in unrelated if k in s1 and s1[k] != s2[k])
+        if lost or changed:
+            rep.violate(f"C08/isolation/{name}/unrelated-output-damaged", f"{name}: with the bad piece present, unrelated files are lost {lost[:4]} / differ {changed[:4]}", lost=lost, changed=changed)
+        bad_imports = treegen.import_check([(str(d), f"iso-{name}-faulty".replace("-", "_"))]) if False else {}
+        for prob in treegen.relative_import_check(d / f"iso-{name}-faulty")[:3]:
+            rep.violate(f"C08/isolation/{name}/dangling-import", f"{name}: {prob}")
+
+
 def run(rep) -> None:
     quick = rep.tier == "quick"
     rnd = random.Random(seed() * 1009 + 8)
@@ -205,6 +253,7 @@ def run(rep) -> None:
                 pipe.VARIANT = None
         rep.extra["array_variants"] = ["tuple", "nested", "addl"]
         sibling_operations(rep, d)
+        isolation_pairs(rep, d)
         docs = [(pipe.concretize(c["doc"]), c["doc"]) for c in rnd.sample(cases, 800 if quick else 6000)]
         docs += [(pipe.concretize(a), a) for a in pipe.random_adocs(rnd, 700 if quick else 6000)]
         pipe.trace_batch(rep, docs, d, "C08", _law_key)
